@@ -17,6 +17,14 @@ impl Solution {
     pub fn default() -> Solution { unimplemented!() }
     #[verifier::external_body]
     pub fn as_reference(&self) -> (r: SolutionReference<'_>) ensures r.asg == self.asg { unimplemented!() }
+    // the identifiers of the variables the solution knows (contents unspecified)
+    #[verifier::external_body]
+    pub fn get_domains(&self) -> (r: DomainGeneratorIterator) { unimplemented!() }
+}
+pub struct DomainGeneratorIterator { pub x: u32 }
+impl DomainGeneratorIterator {
+    #[verifier::external_body]
+    pub fn next(&mut self) -> (r: Option<u32>) { unimplemented!() }
 }
 pub struct SolutionReference<'a> { pub asg: Ghost<Asg>, pub p: core::marker::PhantomData<&'a ()> }
 impl<'a> SolutionReference<'a> {
